@@ -98,7 +98,7 @@ def step_name(side, i, scheme):
     """file name of step i: the order of the steps is the order of the entries of the index file, whatever the files are called
     (numbered, named in descending alphabetical order, or the two sides named by different schemes)"""
     if scheme == "descending":
-        return f"{side}_{chr(ord('z') - i)}.vtu"
+        return f"{side}_{9999 - i:04d}.vtu"
     if scheme == "mixed" and side == "res":
         return f"{side}_{(i * 7) % 10}{i}.vtu"
     return f"{side}_{i}.vtu"
